@@ -49,7 +49,8 @@ theorem genGpaRecursiveProcrustes_eq {n d : ℕ} (ext : Ext) (rec : GObj n d →
     genGpaRecursiveProcrustes ext rec g = gpaStepExt ext rec g := by
   unfold gpaStepExt
   simp only [genGpaRecursiveProcrustes, genMeanPointcloud_eq, genAlignedSource_eq, genPointCloudNorm_eq, genSetTarget_eq,
-    retarget, genSimilaritySync_eq, AsPts.get, id, HObj.ops, List.map_map, Function.comp_def, np_sub_mat]
+    retarget, genSimilaritySync_eq, AsPts.get, id, HObj.ops, List.append_eq, List.nil_append, List.map_map,
+    Function.comp_def, np_sub_mat]
   simp only [← gpaNewTargetExt_def]
   -- both sides now speak about the same two tests: split on them, whatever their order / polarity in the source
   by_cases h1 : g.nIterations > g.maxIterations <;>
